@@ -4,8 +4,16 @@ package certificates
 
 // Contracts for the deductive checker in /verif (comments only; compiled to nothing).
 
+// reading keys and certificates from PEM files writes nothing that existed before (proved; the file system access
+// goes through the Oser interface, whose ReadFile is assumed not to touch the heap)
+//@ iface Oser.ReadFile
+//@   params o, name
+//@   modifies nothing
+//@ func LoadFromPEMFile
+//@   modifies nothing
+//@   loop for len(content) > 0
+//@     invariant OWNLIST: fresh(results)
 //@ func LoadPublicKey
-//@   trusted
 //@   modifies nothing
 
 // ---- C20: the request carries exactly the requested names; the certificate copies the request's names and
@@ -38,3 +46,6 @@ package certificates
 //@     invariant NOTYET: !found && len(certTemplate.ExtraExtensions) == 0 && len(certTemplate.DNSNames) == 0 && len(certTemplate.IPAddresses) == 0
 //@        && forall j int :: 0 <= j && j <= rangeindex ==> !issan(req.Extensions[j].Id)
 //@   site call ParseCertificate SAME: [C20] requires arg0 == certBytes
+
+//@ func LoadPrivateKey
+//@   modifies nothing
